@@ -184,7 +184,35 @@ def run(chk):
                         except ev.Inconclusive:
                             pass
                         if f["sname"] == "Cross":
-                            chk.holds("R1", sig, "normalisation of a derived vector (cross product)", loc)
+                            # the vector that is normalised must be the cross product of the two operands' stored vectors
+                            from .c09 import shape_of as _shape_of, comps as _comps, TA as _TA
+                            from .. import nf as _nf
+                            conv = _nf.Conv()
+                            sh_a = _shape_of(F, F.T(f["parent"])) if f["kind"] == "method" else _shape_of(F, F.T(f["params"][0]["t"]))
+                            ops = []
+                            if f["kind"] == "method":
+                                ops.append(_TA.embed(sh_a, _comps(conv, E0.symbolic(F.T(f["parent"]), "self"))))
+                            for p in f["params"]:
+                                ops.append(_TA.embed(_shape_of(F, F.T(p["t"])), _comps(conv, E0.symbolic(F.T(p["t"]), p["n"] or "arg"))))
+                            want = _TA.BINARY["Cross"](ops[0], ops[1]) if len(ops) == 2 else None
+                            nums = list(detail) + [ev.ZERO] * (3 - len(detail))
+                            wrong = None
+                            if want is None:
+                                wrong = "not a binary cross product"
+                            else:
+                                for j in range(3):
+                                    try:
+                                        g = conv(nums[j])
+                                    except ev.Inconclusive as x_:
+                                        wrong = "component %s of the normalised vector is %s (%s)" % ("xyz"[j], ev.show(nums[j])[:80], x_)
+                                        break
+                                    if not _nf.equal(g, want[j]):
+                                        wrong = "component %s of the vector that is normalised is %s, the cross product has %s there" % ("xyz"[j], ev.show(nums[j])[:80], want[j])
+                                        break
+                            if wrong:
+                                chk.violated("R1", sig, wrong + ": the direction is not that of the cross product (for parallel operands the cross product is the zero vector and the direction must be exactly zero)", loc)
+                            else:
+                                chk.holds("R1", sig, "normalisation of the cross product of the operands' stored vectors", loc)
                         elif in_order_inputs(detail, ins):
                             chk.holds("R1", sig, "normalisation of the input components in their slots", loc)
                         else:
